@@ -282,15 +282,25 @@ fn solve(t: &Tree, par: &Value, budget: u64) -> Result<Solved, String> {
 }
 
 fn solve_k(t: &Tree, par: &Value, budget: u64, threads: usize) -> Result<Solved, String> {
+    solve_m(t, par, budget, threads, "Full", 0)
+}
+
+/// any method; the sampled ones with the draws pinned to a pure function of (site, infoset, pass), so that two
+/// presentations with the same infoset numbering follow the same sample
+fn solve_m(t: &Tree, par: &Value, budget: u64, threads: usize, meth: &str, draw_seed: u64) -> Result<Solved, String> {
+    let meth = meth.to_string();
     let t2 = t.clone();
     let par = par.clone();
     util::catch(move || {
         let game = tree::build(&t2).map_err(|e| format!("from_root: {e:?}"))?;
         let dump = game.verif_dump();
         verif::reset();
-        let (strat, bound) = game
-            .solve(cfr::method("Full"), budget, 0.0, threads, Some(cfr::params(&par)))
-            .map_err(|e| format!("solve: {e:?}"))?;
+        if meth != "Full" {
+            verif::set_draw_seed(Some(draw_seed));
+        }
+        let res = game.solve(cfr::method(&meth), budget, 0.0, threads, Some(cfr::params(&par)));
+        verif::reset();
+        let (strat, bound) = res.map_err(|e| format!("solve: {e:?}"))?;
         let dense = strat.verif_dense();
         let mut named: Named = [BTreeMap::new(), BTreeMap::new()];
         for pl in 0..2 {
@@ -536,6 +546,18 @@ pub fn replay(args: &Args) {
                     compare_solves("scale", c2, &x, &y, 1e-13, &format!("{name} T={b} payoffs x 2^{e}"), &mut bad);
                 }
                 (x, y) => bad.push(json!({"class": "panic", "what": "solve failed or panicked", "run": format!("{name} T={b} payoffs x 2^{e}"),
+                    "original": x.err(), "transformed": y.err()})),
+            }
+            // ... and the sampled methods under pinned draws (the unit of the payoffs must not matter to them either: no
+            // absolute threshold anywhere)
+            let meth = ["Sampled", "External"][(id as usize + ei) % 2];
+            let b2 = 40;
+            match (solve_m(&t, &par, b2, 1, meth, id as u64), solve_m(&scaled, &par, b2, 1, meth, id as u64)) {
+                (Ok(x), Ok(y)) => {
+                    runs += 1;
+                    compare_solves("scale", c2, &x, &y, 1e-13, &format!("{meth} {name} T={b2} payoffs x 2^{e}"), &mut bad);
+                }
+                (x, y) => bad.push(json!({"class": "panic", "what": "solve failed or panicked", "run": format!("{meth} {name} T={b2} payoffs x 2^{e}"),
                     "original": x.err(), "transformed": y.err()})),
             }
         }
